@@ -13,6 +13,7 @@ RULE = ("cases = dataset (D1-D10, int / string / int-like names in shuffled inse
 ASSUMPTIONS = ["documented refusals (scheme not handled on incomplete data, incompatible arguments) count as 'not accepted'",
                "CPLEX itself is never run: mode D uses the generic 0-1 ILP stand-in vf/standin/cplex"]
 SUMMARY_KEYS = ["runs", "returned", "refused", "ilp_cases"]
+THOROUGH_SCALE = 3
 CRASH_IS_VIOLATION = True
 TIMEOUT = {"quick": 900, "thorough": 5400}
 
